@@ -56,15 +56,20 @@ def values_model(chk):
     off, doc = cv.decide(res)
     for o in off:
         w = sorted(set(cv.writes_of(o) + cv.random_of(o)))
-        chk.fail_input(o["site"], "static-write:" + ",".join(w),
+        own = sorted(set(t[1] for t in o["effects"] if t[0] == "WOwn"))
+        stat = [x for x in w if x not in own]
+        klass = "+".join(([("static-write:" + ",".join(stat))] if stat else []) + ([("own-write:" + ",".join(own))] if own else []))
+        chk.fail_input(o["site"], klass,
                        {"operation": o["uid"], "kind": o["kind"], "effects": o["effects"], "via": o["via"]},
-                       "an operation of Integer / Rational / RecInt on thread-private values writes no process-wide state (only the documented setters do)",
+                       "no operation writes process-wide state (only the documented setters / generators / allocator do) and no const member writes its own object",
                        "%s writes %s" % (o["fn"], ",".join(w)),
                        "description generated from the source: a thread running this operation races with every thread that reads or writes %s "
                        "(C18_mode_switch_refuted exhibits the failing interleaving)" % ",".join(w))
     m = res["meta"]
     if len(m.get("families_in_dump", [])) < 9 or m.get("reachable_from_families", 0) < 300:
         chk.broke("value-class footprint generator: the operation families of harness/c18_values.h are not in the AST dump", json.dumps(m)[:1500])
+    if m.get("note"):
+        chk.notes.append("value-class footprint generator ran in a reduced configuration: " + str(m["note"])[-300:])
     reads = {}
     for o in res["ops"]:
         for t in o["effects"]:
